@@ -12,7 +12,9 @@ import (
 	"regexp"
 	"sort"
 	"strings"
+	"sync"
 	"time"
+	"verif/sim/lockrt"
 
 	ct "github.com/google/certificate-transparency-go"
 	rctfe "github.com/google/certificate-transparency-go/trillian/ctfe"
@@ -40,6 +42,9 @@ type CfgWorld struct {
 	breaking   string   // the one non-harmless edit, or "none"
 	why        []string // applied perturbations
 	keys       map[string]*oracle.Key
+	// lockstep spec: verdicts of the validator calls made by a party under the stepped driver
+	steppedMu sync.Mutex
+	stepped   map[string]cfgOutcome
 }
 
 // NewCfg returns the constructor.
@@ -47,9 +52,27 @@ func NewCfg() func() kernel.World {
 	return func() kernel.World { return &CfgWorld{World: World{mode: Mode{Prop: "C15"}}} }
 }
 
-func (w *CfgWorld) Options(s *kernel.Sim) []kernel.Option { return nil }
-func (w *CfgWorld) AfterStep(s *kernel.Sim)               {}
-func (w *CfgWorld) StateKey() string                      { return w.verdict + ":" + strings.Join(w.why, ",") }
+// NewCfgLock: the same world on the lockstep build (C15lock).
+func NewCfgLock() func() kernel.World {
+	return func() kernel.World { return &CfgWorld{World: World{mode: Mode{Prop: "C15", Lock: true}}} }
+}
+
+// Options: nothing to decide in the ordinary spec (the validators are called by the driver in Finish). In the
+// lockstep spec one party validates the final configuration while the driver decides, statement by statement, which of
+// the goroutines that the validator may have started goes on.
+func (w *CfgWorld) Options(s *kernel.Sim) []kernel.Option {
+	if w.ls == nil {
+		return nil
+	}
+	return w.ls.Options(s.ParkedCalls())
+}
+
+func (w *CfgWorld) AfterStep(s *kernel.Sim) {
+	if w.ls != nil {
+		w.ls.Check()
+	}
+}
+func (w *CfgWorld) StateKey() string { return w.verdict + ":" + strings.Join(w.why, ",") }
 
 type perturb struct {
 	name    string
@@ -510,6 +533,33 @@ func (w *CfgWorld) Init(s *kernel.Sim) {
 	}
 	w.multi = m
 	s.Logf("config verdict=%s perturbations=%v logs=%d backends=%d", w.verdict, w.why, nLogs, nBE)
+	if !w.mode.Lock {
+		lockrt.Install(nil)
+		return
+	}
+	// lockstep spec: one party validates the final configuration, in both forms, on goroutines the driver schedules
+	w.ls = kernel.NewLockstep(s, true)
+	lockrt.Install(w.ls.RT)
+	s.Logf("%s", w.ls.Describe())
+	w.stepped = map[string]cfgOutcome{}
+	mc := proto.Clone(m).(*configpb.LogMultiConfig)
+	var sc []*configpb.LogConfig
+	if m.LogConfigs != nil {
+		sc = proto.Clone(m.LogConfigs).(*configpb.LogConfigSet).Config
+	}
+	s.Go(func() {
+		w.ls.RT.SetName("validator")
+		o := guardOnce(func() error { _, err := rctfe.ValidateLogMultiConfig(mc); return err })
+		w.steppedMu.Lock()
+		w.stepped["ValidateLogMultiConfig/stepped"] = o
+		w.steppedMu.Unlock()
+		if sc != nil {
+			o = guardOnce(func() error { return rctfe.ValidateLogConfigs(sc) })
+			w.steppedMu.Lock()
+			w.stepped["ValidateLogConfigs/stepped"] = o
+			w.steppedMu.Unlock()
+		}
+	})
 }
 
 var baseRE = regexp.MustCompile(`log[0-9]+`)
@@ -584,6 +634,20 @@ func (w *CfgWorld) Finish(s *kernel.Sim) {
 	t := s.T
 	dir := s.TB.TempDir()
 	outcomes := map[string]cfgOutcome{}
+	if w.ls != nil {
+		// whatever the stepped party got done (all of it, unless the step budget ran out); from here on the
+		// validators are called by the driver, on an ordinary runtime
+		w.ls.Quiet()
+		lockrt.Install(nil)
+		w.steppedMu.Lock()
+		for n, o := range w.stepped {
+			outcomes[n] = o
+		}
+		w.steppedMu.Unlock()
+		if len(outcomes) > 0 {
+			s.Probe("c15.stepped-validations")
+		}
+	}
 	// in-memory multi validation
 	if w.pre.panic != "" || !w.pre.accepted {
 		s.Violate("wellformed-rejected", "base", "ValidateLogMultiConfig refused (or panicked on) the well-formed set before any edit: %s%s", w.pre.err, w.pre.panic)
